@@ -42,6 +42,12 @@ def run(repo, rep, tier):
                       "extension only without a dot, absolute paths direct, "
                       "memoised, relative directory first")
     _cook_check(repo, rep)
+    # 'content type ... from that version and nothing from earlier ones':
+    # read() sniffs afresh and does not consult what an earlier read stored
+    # on the template (C17 owns the sniffing rules)
+    from . import c17
+    L.borrow(repo, rep, "R16.1", "C17", c17._mode,
+             ("read-history-free", "read-always-sniffs"), minimum=2)
     _retire(repo, rep)
     _loader(repo, rep)
 
